@@ -102,43 +102,43 @@ def Dec (cfg : Cfg) (s : State) (c : Choice) : Prop := step cfg s c = s ∨ mu (
 section
 variable (cfg : Cfg) (s : State)
 
-theorem d_ext (ha : InvA s) (hp : s.poolC = true) : Dec cfg s .extCancel := by
+theorem d_ext (ha : InvA s) (hp : s.runC = true) (hx : s.extC = true → s.poolC = true) : Dec cfg s .extCancel := by
   unfold Dec
   simp only [step]
   a_destruct ha
   cases he : s.extC
   · right; m_simp; grind
-  · left; exact cancelAll_eta s hp (by grind) (by grind) he
+  · left; exact cancelAll_eta s (hx he) hp (by grind) he
 
-theorem d_warm (o) (ha : InvA s) (hp : s.poolC = true) : Dec cfg s (.warm o) := by
+theorem d_warm (o) (ha : InvA s) (hp : s.runC = true) : Dec cfg s (.warm o) := by
   unfold Dec
   simp only [step]
   split
   · right; a_destruct ha; cases o <;> (m_simp; grind)
   · left; rfl
 
-theorem d_sched (o) (ha : InvA s) (hp : s.poolC = true) : Dec cfg s (.sched o) := by
+theorem d_sched (o) (ha : InvA s) (hp : s.runC = true) : Dec cfg s (.sched o) := by
   unfold Dec
   simp only [step]
   split
   · right; a_destruct ha; cases o <;> (m_simp; (try simp only [liveRank] at *); grind)
   · left; rfl
 
-theorem d_provRet (r) (ha : InvA s) (hp : s.poolC = true) : Dec cfg s (.provRet r) := by
+theorem d_provRet (r) (ha : InvA s) (hp : s.runC = true) : Dec cfg s (.provRet r) := by
   unfold Dec
   simp only [step]
   split
   · right; cases r <;> (m_simp; grind)
   · left; rfl
 
-theorem d_aggRet (r) (ha : InvA s) (hp : s.poolC = true) : Dec cfg s (.aggRet r) := by
+theorem d_aggRet (r) (ha : InvA s) (hp : s.runC = true) : Dec cfg s (.aggRet r) := by
   unfold Dec
   simp only [step]
   split
   · right; cases r <;> (m_simp; grind)
   · left; rfl
 
-theorem d_rps (ha : InvA s) (hp : s.poolC = true) : Dec cfg s .rpsFinished := by
+theorem d_rps (ha : InvA s) (hp : s.runC = true) : Dec cfg s .rpsFinished := by
   unfold Dec
   simp only [step]
   a_destruct ha
@@ -146,28 +146,28 @@ theorem d_rps (ha : InvA s) (hp : s.poolC = true) : Dec cfg s .rpsFinished := by
   · left; exact startC_eta s (by grind)
   · left; rfl
 
-theorem d_startFirst (o) (ha : InvA s) (hp : s.poolC = true) : Dec cfg s (.startFirst o) := by
+theorem d_startFirst (o) (ha : InvA s) (hp : s.runC = true) : Dec cfg s (.startFirst o) := by
   unfold Dec
   simp only [step]
   split
   · right; a_destruct ha; cases o <;> (m_simp; grind)
   · left; rfl
 
-theorem d_startTick (ha : InvA s) (hp : s.poolC = true) : Dec cfg s .startTick := by
+theorem d_startTick (ha : InvA s) (hp : s.runC = true) : Dec cfg s .startTick := by
   unfold Dec
   simp only [step]
   split
   · right; a_destruct ha; m_simp; grind
   · left; rfl
 
-theorem d_startEnd (ha : InvA s) (hp : s.poolC = true) : Dec cfg s .startEnd := by
+theorem d_startEnd (ha : InvA s) (hp : s.runC = true) : Dec cfg s .startEnd := by
   unfold Dec
   simp only [step]
   split
   · right; a_destruct ha; m_simp; grind
   · left; rfl
 
-theorem d_instCreate (i o) (ha : InvA s) (hp : s.poolC = true) : Dec cfg s (.instCreate i o) := by
+theorem d_instCreate (i o) (ha : InvA s) (hp : s.runC = true) : Dec cfg s (.instCreate i o) := by
   unfold Dec
   simp only [step]
   split
@@ -178,14 +178,18 @@ theorem d_instCreate (i o) (ha : InvA s) (hp : s.poolC = true) : Dec cfg s (.ins
     have e5 : instRank ⟨id, none⟩ = 5 := rfl
     rw [e5] at h1
     right; a_destruct ha
+    have ho : s.runResOpen = true := by
+      cases hr : s.runResOpen
+      · exfalso; by_cases hw : s.aw = .off <;> grind
+      · rfl
     cases o
-    · m_simp; grind
-    · m_simp; grind
-    · m_simp; grind
+    · simp only [sendRes, ho]; m_simp; grind
+    · simp only [sendRes, ho]; m_simp; grind
+    · simp only [sendRes, ho]; m_simp; grind
     · rename_i c; have h3 := h2 ⟨id, some ⟨c, 0⟩⟩; rw [e5] at h3; have e4 : instRank ⟨id, some ⟨c, 0⟩⟩ = 4 := rfl; rw [e4] at h3; m_simp; grind
   · left; rfl
 
-theorem d_instRet (i r) (ha : InvA s) (hp : s.poolC = true) : Dec cfg s (.instRet i r) := by
+theorem d_instRet (i r) (ha : InvA s) (hp : s.runC = true) : Dec cfg s (.instRet i r) := by
   unfold Dec
   simp only [step]
   split
@@ -196,10 +200,15 @@ theorem d_instRet (i r) (ha : InvA s) (hp : s.poolC = true) : Dec cfg s (.instRe
     rw [e4] at h1
     split
     · left; rfl
-    · right; a_destruct ha; cases r <;> (m_simp; grind)
+    · right; a_destruct ha
+      have ho : s.runResOpen = true := by
+        cases hr : s.runResOpen
+        · exfalso; by_cases hw : s.aw = .off <;> grind
+        · rfl
+      cases r <;> (simp only [sendRes, addErr, ho]; m_simp; grind)
   · left; rfl
 
-theorem d_awaitProv (ha : InvA s) (hp : s.poolC = true) : Dec cfg s .awaitProv := by
+theorem d_awaitProv (ha : InvA s) (hp : s.runC = true) : Dec cfg s .awaitProv := by
   unfold Dec
   simp only [step]
   split
@@ -209,7 +218,7 @@ theorem d_awaitProv (ha : InvA s) (hp : s.poolC = true) : Dec cfg s .awaitProv :
     m_simp; grind
   · left; rfl
 
-theorem d_awaitAgg (ha : InvA s) (hp : s.poolC = true) : Dec cfg s .awaitAgg := by
+theorem d_awaitAgg (ha : InvA s) (hp : s.runC = true) : Dec cfg s .awaitAgg := by
   unfold Dec
   simp only [step]
   split
@@ -219,7 +228,7 @@ theorem d_awaitAgg (ha : InvA s) (hp : s.poolC = true) : Dec cfg s .awaitAgg := 
     m_simp; grind
   · left; rfl
 
-theorem d_awaitStart (ha : InvA s) (hp : s.poolC = true) : Dec cfg s .awaitStart := by
+theorem d_awaitStart (ha : InvA s) (hp : s.runC = true) : Dec cfg s .awaitStart := by
   unfold Dec
   simp only [step]
   split
@@ -230,7 +239,7 @@ theorem d_awaitStart (ha : InvA s) (hp : s.poolC = true) : Dec cfg s .awaitStart
     m_simp; grind
   · left; rfl
 
-theorem d_awaitRun (ha : InvA s) (hp : s.poolC = true) : Dec cfg s .awaitRun := by
+theorem d_awaitRun (ha : InvA s) (hp : s.runC = true) : Dec cfg s .awaitRun := by
   unfold Dec
   simp only [step]
   split
@@ -243,7 +252,7 @@ theorem d_awaitRun (ha : InvA s) (hp : s.poolC = true) : Dec cfg s .awaitRun := 
       m_simp; grind
   · left; rfl
 
-theorem d_errDeliver (ha : InvA s) (hp : s.poolC = true) : Dec cfg s .errDeliver := by
+theorem d_errDeliver (ha : InvA s) (hp : s.runC = true) : Dec cfg s .errDeliver := by
   unfold Dec
   simp only [step]
   split
@@ -253,7 +262,7 @@ theorem d_errDeliver (ha : InvA s) (hp : s.poolC = true) : Dec cfg s .errDeliver
     m_simp; grind
   · left; rfl
 
-theorem d_errSuppress (ha : InvA s) (hp : s.poolC = true) : Dec cfg s .errSuppress := by
+theorem d_errSuppress (ha : InvA s) (hp : s.runC = true) : Dec cfg s .errSuppress := by
   unfold Dec
   simp only [step]
   split
@@ -265,14 +274,14 @@ theorem d_errSuppress (ha : InvA s) (hp : s.poolC = true) : Dec cfg s .errSuppre
     all_goals first | (left; rfl) | (right; exact key)
   · left; rfl
 
-theorem d_mainCancel (ha : InvA s) (hp : s.poolC = true) : Dec cfg s .mainCancel := by
+theorem d_mainCancel (ha : InvA s) (hp : s.runC = true) : Dec cfg s .mainCancel := by
   unfold Dec
   simp only [step]
   split
   · right; m_simp; grind
   · left; rfl
 
-theorem d_mainClosed (ha : InvA s) (hp : s.poolC = true) : Dec cfg s .mainClosed := by
+theorem d_mainClosed (ha : InvA s) (hp : s.runC = true) : Dec cfg s .mainClosed := by
   unfold Dec
   simp only [step]
   split
@@ -281,10 +290,12 @@ theorem d_mainClosed (ha : InvA s) (hp : s.poolC = true) : Dec cfg s .mainClosed
 
 end
 
-/-- once the pool context is cancelled, EVERY effective step decreases the ranking function -/
-theorem mu_step (cfg : Cfg) (s : State) (c : Choice) (ha : InvA s) (hp : s.poolC = true) : Dec cfg s c := by
+/-- once the run context is cancelled (all instances finished, `Pool.Run` returned, or the caller cancelled),
+EVERY effective step decreases the ranking function -/
+theorem mu_step (cfg : Cfg) (s : State) (c : Choice) (ha : InvA s) (hp : s.runC = true)
+    (hx : s.extC = true → s.poolC = true) : Dec cfg s c := by
   cases c
-  · exact d_ext cfg s ha hp
+  · exact d_ext cfg s ha hp hx
   · exact d_warm cfg s _ ha hp
   · exact d_sched cfg s _ ha hp
   · exact d_provRet cfg s _ ha hp
